@@ -316,6 +316,11 @@ func (p *Transformer) GetFuncInfo(ctx llvm.Context, typ llvm.Type) (info FuncInf
 	for i, t := range params {
 		info.Params[i] = p.GetTypeInfo(ctx, typ, t, i+1)
 	}
+	if adj, ok := p.sys.(interface {
+		AdjustFuncInfo(ctx llvm.Context, info *FuncInfo)
+	}); ok {
+		adj.AdjustFuncInfo(ctx, &info)
+	}
 	return
 }
 
@@ -370,6 +375,7 @@ func (p *Transformer) transformFunc(m llvm.Module, fn llvm.Value) bool {
 	for i, attr := range attrs {
 		nfn.AddAttributeAtIndex(i, attr)
 	}
+	p.copyIntExtAttrs(&info, fn, nfn)
 	nfn.SetLinkage(fn.Linkage())
 	nfn.SetFunctionCallConv(fn.FunctionCallConv())
 	for _, attr := range fn.GetFunctionAttributes() {
@@ -386,6 +392,37 @@ func (p *Transformer) transformFunc(m llvm.Module, fn llvm.Value) bool {
 	fn.ReplaceAllUsesWith(nfn)
 	fn.EraseFromParentAsFunction()
 	return true
+}
+
+// copyIntExtAttrs carries the signext/zeroext attributes of unchanged scalar
+// parameters over to their position in the rewritten signature.
+func (p *Transformer) copyIntExtAttrs(info *FuncInfo, fn llvm.Value, nfn llvm.Value) {
+	kinds := []uint{llvm.AttributeKindID("signext"), llvm.AttributeKindID("zeroext")}
+	copyAt := func(from, to int) {
+		for _, kind := range kinds {
+			if attr := fn.GetEnumAttributeAtIndex(from, kind); attr.C != nil {
+				nfn.AddAttributeAtIndex(to, attr)
+			}
+		}
+	}
+	index := 1
+	if info.Return.Kind == AttrPointer {
+		index++
+	}
+	for i, ti := range info.Params {
+		switch ti.Kind {
+		case AttrVoid:
+		case AttrNone:
+			copyAt(i+1, index)
+			index++
+		case AttrWidthType2:
+			index += 2
+		case AttrExtract:
+			index += ti.Type.StructElementTypesCount()
+		default:
+			index++
+		}
+	}
 }
 
 func (p *Transformer) transformFuncBody(m llvm.Module, ctx llvm.Context, info *FuncInfo, fn llvm.Value, nfn llvm.Value, nft llvm.Type) {
